@@ -127,9 +127,12 @@ AlPatchCtx(t) ==
                        \E b \in Range(d.blocks) : b.k = "c" /\ b.o <= x /\ x < b.o + b.s}
       pl == shape /\ d.addr = iv.addr /\ d.size = Len(d.by) /\ d.init = d.size /\ fits # {}
       broken == {e \in Range(t.alx) : e.addr >= 0 /\ e.addr % e.a # 0}
-      newreq == {e \in Range(t.alx) : e.id = 0 /\ e.a = t.pn}
+      \* the block that received the aligned patch code (it may have been joined
+      \* with the block it was inserted into)
+      IsPatchReq(e) == e.a = t.pn /\ e.addr >= 0 /\ SubSeq(d.by, e.o + 1, e.o + Len(t.pa)) = t.pa
+      newreq == {e \in Range(t.alx) : IsPatchReq(e)}
       kf2 == /\ t.v.fmt = "elf" /\ t.tabpre = "absent"
-             /\ broken # {} /\ \A e \in broken : e.id = 0
+             /\ broken # {} /\ \A e \in broken : IsPatchReq(e)
              /\ d.by = edited
   IN  [clauses |->
          << <<"C10_Completes", dom, t.exc = "" /\ t.stage = "done", <<t.exc, t.stage>>, {}>>,
